@@ -172,6 +172,11 @@ class _Hoist(ast.NodeTransformer):
 
     def visit_Call(self, node):
         self.generic_visit(node)
+        if isinstance(node.func, ast.Name) and node.func.id == 'map' and len(node.args) == 2 and not node.keywords \
+                and isinstance(node.args[0], (ast.Name, ast.Attribute)):
+            v = ast.Name(id='_m', ctx=ast.Load())
+            return ast.GeneratorExp(elt=ast.Call(func=node.args[0], args=[v], keywords=[]),
+                                    generators=[ast.comprehension(target=ast.Name(id='_m', ctx=ast.Store()), iter=node.args[1], ifs=[], is_async=0)])
         if len(node.args) == 1 and not node.keywords and isinstance(node.args[0], ast.IfExp) and isinstance(node.func, (ast.Name, ast.Attribute)):
             ie = node.args[0]
             a = clone(node)
@@ -212,6 +217,14 @@ class _Subst(ast.NodeTransformer):
     def visit_Name(self, node):
         if isinstance(node.ctx, ast.Load) and node.id in self.env:
             return clone(self.env[node.id])
+        return node
+
+    def visit_Attribute(self, node):
+        # a field of `self` that this function has just assigned reads as the assigned value
+        if isinstance(node.ctx, ast.Load) and isinstance(node.value, ast.Name) and node.value.id == 'self' \
+                and 'self.' + node.attr in self.env and 'self' not in self.env:
+            return clone(self.env['self.' + node.attr])
+        self.generic_visit(node)
         return node
 
     def _shadow(self, names):
@@ -422,6 +435,9 @@ class _State:
 
     def envkey(self):
         return tuple(sorted((k, norm(v)) for k, v in self.env.items()))
+
+    def ctx_has_loop(self):
+        return any(c.startswith(('for ', 'while ')) for c in self.ctx)
 
 
 class Summarizer:
@@ -736,15 +752,22 @@ class Summarizer:
             return states
         # subscript / attribute store
         out = []
-        tv = self.val(t, st)
-        for g, v in self.split_ifexp(hoist(self.val(vnode, st))):
+        tv = self.val(t, st) if not (isinstance(t, ast.Attribute) and isinstance(t.value, ast.Name) and t.value.id == 'self') else clone(t)
+        whole = hoist(self.val(vnode, st))
+        for g, v in self.split_ifexp(whole):
             s2 = st.fork()
             for tt_, pol in g:
                 s2.guards.append(self.guard(tt_ if pol else neg_ast(tt_)))
             self.emit_store(tv, v, s2, node)
             out.append(s2)
         # the continuing state does not depend on which alternative was stored
-        return [st] if len(out) != 1 else out
+        nxt = st.fork()
+        if isinstance(t, ast.Attribute) and isinstance(t.value, ast.Name) and t.value.id == 'self':
+            if len(norm(whole)) <= 60 and not st.ctx_has_loop():
+                nxt.env['self.' + t.attr] = whole
+            else:
+                nxt.env['self.' + t.attr] = ast.Attribute(value=ast.Name(id='self', ctx=ast.Load()), attr=t.attr, ctx=ast.Load())
+        return [nxt]
 
     def step(self, s, st):
         if isinstance(s, ast.Expr):
@@ -880,8 +903,8 @@ class Summarizer:
                         vb = vb if vb is not None else prev
                     if norm(va) == norm(vb):
                         m.env[nm] = va
-                    elif False:
-                        pass
+                    elif nm.startswith('self.'):
+                        m.env[nm] = ast.Attribute(value=ast.Name(id='self', ctx=ast.Load()), attr=nm[5:], ctx=ast.Load())
                     elif norm(va) == norm(vb):
                         m.env[nm] = va
                     else:
